@@ -16,7 +16,7 @@ ANCHORS = [
 ]
 OPS = ["cumsum", "np.cumsum", "add.acc", "subtract.acc", "xor.acc", "sort", "unique", "unique_counts", "diff"]
 FLOOR_TAGS = ["op:" + o for o in OPS] + ["kind:b", "kind:i", "kind:u", "kind:f", "norows", "allempty", "e-first", "e-last", "e-mid", "e-consec", "e-none",
-                                         "recv:fresh", "recv:lazyrows", "recv:lazycols+2", "diff-n>len", "v:extreme", "v:dups"]
+                                         "recv:fresh", "recv:lazyrows", "recv:lazycols+2", "diff-n>len", "v:extreme", "v:dups", "op-write-op"]
 FLOOR_MONITORS = ["c07:compare", "inv:ragged"]
 N_RANDOM = {"quick": 36000, "thorough": 400000}
 
@@ -25,11 +25,22 @@ def setup(lib):
     contracts.attach(lib, which=("ragged",))
 
 
-def mk_case(lens, dtype, vals, op, n=1, vclass="small", recv="fresh"):
-    return {"lens": list(lens), "dtype": np.dtype(dtype).name, "vals": vals, "op": op, "n": n, "vclass": vclass, "recv": recv}
+def mk_case(lens, dtype, vals, op, n=1, vclass="small", recv="fresh", rewrite=None):
+    return {"lens": list(lens), "dtype": np.dtype(dtype).name, "vals": vals, "op": op, "n": n, "vclass": vclass, "recv": recv, "rewrite": rewrite}
 
 
 def run(case):
+    r = run_once(case, None)
+    if r["verdict"] != "held" or not case.get("rewrite") or sum(case["lens"]) == 0:
+        return r
+    # the same object is written to in place and the operation is applied again: results must follow the new content
+    # (stale caches keyed on the object or on its buffer show up here)
+    r2 = run_once(case, case["rewrite"])
+    r2["tags"] = sorted(set(r2["tags"] + ["op-write-op"]))
+    return r2
+
+
+def run_once(case, rewrite):
     RA = CTX.lib.RaggedArray
     lens, op, nn = case["lens"], case["op"], case["n"]
     dt = np.dtype(case["dtype"])
@@ -38,6 +49,25 @@ def run(case):
     rows = gen.split_rows(flat, lens)
     recv = case.get("recv", "fresh")
     ra, parent = c02.build_receiver(recv, flat, lens)
+    if rewrite is not None:
+        first = attempt(apply_op, ra, op, nn)        # first application (judged by the first pass); its result is dropped
+        pos = rewrite["pos"] % tot
+        newv = np.array([rewrite["val"]]).astype(dt)[0]
+        i = int(np.searchsorted(np.cumsum(lens), pos, side="right"))
+        j = pos - (int(np.cumsum(lens)[i - 1]) if i else 0)
+        if rewrite["how"] == "cell":
+            ra[i, j] = newv
+            flat = flat.copy()
+            flat[pos] = newv
+        elif rewrite["how"] == "row":
+            ra[i] = newv
+            flat = flat.copy()
+            off = int(np.cumsum(lens)[i - 1]) if i else 0
+            flat[off:off + lens[i]] = newv
+        else:
+            ra.fill(newv)
+            flat = np.full_like(flat, newv)
+        rows = gen.split_rows(flat, lens)
     parent_before = peek(parent) if parent is not None else None
     tags = ["op:" + op, "kind:" + dt.kind, "v:" + case["vclass"], "recv:" + recv] + gen.empty_placement(lens)
     if op == "diff" and lens and nn > max(lens):
@@ -102,6 +132,22 @@ def run(case):
     return held(tags, nontrivial)
 
 
+def apply_op(ra, op, nn):
+    if op == "cumsum":
+        return ra.cumsum(axis=-1)
+    if op == "np.cumsum":
+        return np.cumsum(ra, axis=-1)
+    if op.endswith(".acc"):
+        return {"add.acc": np.add, "subtract.acc": np.subtract, "xor.acc": np.bitwise_xor}[op].accumulate(ra, axis=-1)
+    if op == "sort":
+        return ra.sort(axis=-1)
+    if op == "unique":
+        return np.unique(ra, axis=-1)
+    if op == "unique_counts":
+        return np.unique(ra, axis=-1, return_counts=True)
+    return np.diff(ra, n=nn, axis=-1)
+
+
 # ----------------------------------------------------------------------------- workloads
 
 def _vals(rng, dtype, n, vclass, op):
@@ -121,7 +167,10 @@ def gen_case(rng, lens, dtype, vclass, op=None, recv="fresh"):
     maxl = max(lens) if lens else 0
     nn = rng.choice([1, 1, 2, 3, maxl, maxl + 1]) if op == "diff" else 1
     nn = max(1, nn)
-    return mk_case(lens, dtype, _vals(rng, dtype, sum(lens), vclass, op), op, nn, vclass, recv)
+    rewrite = None
+    if rng.random() < 0.3 and sum(lens) and vclass in ("small", "dups"):
+        rewrite = {"how": rng.choice(["cell", "cell", "row", "fill"]), "pos": rng.randrange(10 ** 6), "val": rng.choice([0, 1, 3, 7])}
+    return mk_case(lens, dtype, _vals(rng, dtype, sum(lens), vclass, op), op, nn, vclass, recv, rewrite)
 
 
 def directed():
@@ -135,6 +184,12 @@ def directed():
                     yield gen_case(rng, lens, dtype, vclass, op)
             for nn in range(1, (max(lens) if lens else 0) + 2):
                 yield mk_case(lens, dtype, _vals(rng, dtype, sum(lens), "small", "diff"), "diff", nn, "small")
+    for op in OPS:
+        for how in ("cell", "row", "fill"):
+            for dtype in ("int64", "uint8", "float64", "bool"):
+                c = gen_case(rng, [3, 0, 4, 2], dtype, "dups", op)
+                c["rewrite"] = {"how": how, "pos": 5, "val": 1}
+                yield c
     L = [3, 0, 4, 2, 0]
     for dtype in gen.DT_INT:
         for op in ["cumsum", "add.acc", "subtract.acc", "xor.acc", "sort", "unique_counts", "diff"]:
